@@ -89,8 +89,18 @@ def gen(tier, rng):
     cases = []
     N = 2600 if tier == "quick" else 50000
     for _ in range(N):
-        probe = rng.choice(["p2w", "p2w", "w2p", "slice", "slice", "interp", "resample", "meta", "chain", "chain", "sky2d", "joinslice"])
+        probe = rng.choice(["p2w", "p2w", "w2p", "slice", "slice", "interp", "resample", "meta", "chain", "chain", "sky2d", "joinslice", "units"])
         case = {"probe": probe}
+        if probe == "units":
+            # a Quantity coordinate of 2-3 tables held in different but equivalent units, sliced (Python and numpy
+            # integers) and interpolated: the physical values must be those of the tables, whatever unit holds them
+            nt = rng.choice([2, 2, 3])
+            case["tables"] = [_table(rng, rng.randrange(2, 7), None)[0] for _ in range(nt)]
+            case["tunits"] = [rng.choice(["m", "km", "cm"]) for _ in range(nt)]
+            case["items"] = [_item(rng, len(t)) for t in case["tables"]]
+            case["items"] = [it if isinstance(it, int) else ["s", it[1], it[2], None] for it in case["items"]]
+            case["np"] = rng.random() < 0.5
+            case["grid"] = sorted([rng.randrange(0, 4 * (min(len(t) for t in case["tables"]) - 1) + 1), 4] for _ in range(rng.randrange(1, 5)))
         if probe in ("p2w", "interp", "meta"):
             coords = [_coord(rng) for _ in range(rng.choice([1, 1, 2, 3]))]
             case["coords"] = coords
@@ -285,6 +295,65 @@ def _vec(x, n):
     return [float(np.asarray(v)) for v in x]
 
 
+def _units_fail(case):
+    """direct oracle for the 'units' probe; returns '' or a description"""
+    import astropy.units as u
+    from ndcube.extra_coords.table_coord import QuantityTableCoordinate
+    tabs = [np.array([float(_fr(v)) for v in t]) for t in case["tables"]]          # physical values in metres
+    held = [(t * u.m).to(un) for t, un in zip(tabs, case["tunits"])]
+    tc = QuantityTableCoordinate(*held, names=[f"n{j}" for j in range(len(tabs))], physical_types=[f"custom:p{j}" for j in range(len(tabs))])
+
+    def metres(coord):
+        return [np.atleast_1d(np.asarray(t.to_value(u.m), dtype=float)) for t in coord.table]
+    # ---- evaluation through the WCS: every world axis in the unit the WCS declares for it
+    w = tc.wcs
+    for k in range(min(len(t) for t in tabs)):
+        got = w.low_level_wcs.pixel_to_world_values(*[float(k)] * len(tabs))
+        got = [got] if len(tabs) == 1 else list(got)
+        for j, (g, un) in enumerate(zip(got, w.low_level_wcs.world_axis_units)):
+            if not np.isclose((float(g) * u.Unit(un)).to_value(u.m), tabs[j][k], rtol=1e-9, atol=1e-9):
+                return f"table {j} entry {k} is {tabs[j][k]} m, the WCS gives {float(g)} {un}"
+    # ---- slicing
+    items = [Q.dec_item(it) if not isinstance(it, int) else it for it in case["items"]]
+    ok_np = True
+    try:
+        exp = [t[it] for t, it in zip(tabs, items)]
+    except IndexError:
+        exp = None
+    impl_items = tuple(np.int64(it) if (case["np"] and isinstance(it, int)) else it for it in items)
+    try:
+        r = tc[impl_items if len(impl_items) > 1 else impl_items[0]]
+        exc = None
+    except Exception as e:  # noqa
+        r, exc = None, exc_name(e)
+    if exp is None:
+        if exc is None:
+            return f"an index past the end was accepted: {items}"
+    elif exc is not None:
+        return f"slicing with {impl_items} raised {exc}"
+    else:
+        kept = [e for e, it in zip(exp, items) if not isinstance(it, int)]
+        got = metres(r) if len(kept) else []
+        if len(got) != len(kept) or any(g.shape != np.atleast_1d(k).shape or not np.allclose(g, k, rtol=1e-9, atol=1e-9) for g, k in zip(got, kept)):
+            return f"sliced with {impl_items}: tables {[g.tolist() for g in got]} m, expected {[np.atleast_1d(k).tolist() for k in kept]} m"
+        if len(kept) and all(len(np.atleast_1d(k)) > 0 for k in kept):
+            try:
+                r.wcs
+            except Exception as e:  # noqa
+                return f"sliced with {impl_items}: no WCS can be built from the result ({exc_name(e)})"
+    # ---- interpolation at one grid for all tables
+    grid = np.array([float(_fr(v)) for v in case["grid"]])
+    try:
+        ri = tc.interpolate(*[grid] * len(tabs))
+    except Exception as e:  # noqa
+        return f"interpolate raised {exc_name(e)}"
+    for j, (g, t) in enumerate(zip(metres(ri), tabs)):
+        e = np.interp(grid, np.arange(len(t)), t)
+        if g.shape != e.shape or not np.allclose(g, e, rtol=1e-9, atol=1e-9):
+            return f"interpolated table {j}: {g.tolist()} m, linear interpolation of the table gives {e.tolist()} m"
+    return ""
+
+
 def run(case):
     import astropy.units as u
     from functools import reduce
@@ -292,6 +361,9 @@ def run(case):
     probe = case["probe"]
     why, out, finding = [], {}, None
     try:
+        if probe == "units":
+            f = _units_fail(case)
+            return {"out": {}, "oracle": {"ok": not f, "why": f, "finding": None}}
         if probe in ("p2w", "interp", "meta", "w2p", "slice", "chain", "joinslice"):
             tcs = [_build(c) for c in case["coords"]]
             joined = reduce(lambda a, b: a & b, tcs) if len(tcs) > 1 else tcs[0]
@@ -574,8 +646,20 @@ def run(case):
                     g.append(c_ + ks * ff)
                     ks += 1
                 grids.append(np.array(g))
+            def _src_tables():
+                return [[np.asarray(x).tolist() for x in _tables_of(coord, "time" if hasattr(coord.table, "mjd") else "q")]
+                        for _axes, coord in cube.extra_coords._lookup_tables]
+            src_before = _src_tables()
             try:
                 new = cube.extra_coords.resample(f[0] if case["scalar_args"] else f, o[0] if case["scalar_args"] else o)
+                # the source is left as it was, and asked a second time it gives the same answer
+                if _src_tables() != src_before:
+                    why.append("resampling changed the tables of the extra coords it was applied to")
+                again = cube.extra_coords.resample(f[0] if case["scalar_args"] else f, o[0] if case["scalar_args"] else o)
+                t1 = [[np.asarray(x).tolist() for x in _tables_of(c_, "time" if hasattr(c_.table, "mjd") else "q")] for _a, c_ in new._lookup_tables]
+                t2 = [[np.asarray(x).tolist() for x in _tables_of(c_, "time" if hasattr(c_.table, "mjd") else "q")] for _a, c_ in again._lookup_tables]
+                if t1 != t2:
+                    why.append("resampling the same extra coords a second time gives different tables")
             except ValueError as e:
                 if "must all be same shape" in str(e) and any(tb["kind"] == "q2" and len(grids[0]) != len(grids[1]) for tb in case["tabs"]):
                     finding = FINDING_Q2
@@ -630,7 +714,7 @@ def coq_case(case, res):
     o = res["out"]
     probe = case["probe"]
     oq = lambda v: "None" if v is None else f"(Some {_cq(v)})"  # noqa
-    if o.get("crashed") or probe in ("meta", "sky2d", "joinslice"):
+    if o.get("crashed") or probe in ("meta", "sky2d", "joinslice", "units"):
         return TRIV
     if probe == "chain":
         c = case["coords"][0]
